@@ -994,56 +994,56 @@ func (c *BytecodeCompiler) compileMacroBody(location *position.Location, paramet
 
 // Entry point for compiling the body of a method.
 func (c *BytecodeCompiler) compileMethodBody(location *position.Location, parameters []ast.ParameterNode, body []ast.StatementNode) {
+	for _, param := range parameters {
+		p := param.(*ast.MethodParameterNode)
+		pSpan := p.Location()
+
+		pName := identifierToName(p.Name)
+		local := c.defineLocal(pName, pSpan)
+		if local == nil {
+			return
+		}
+		c.predefinedLocals++
+
+		if p.Initialiser != nil {
+			c.bytecode.IncrementOptionalParameterCount()
+
+			c.emitGetLocal(location.StartPos.Line, local.index)
+			jump := c.emitJump(pSpan.StartPos.Line, bytecode.JUMP_UNLESS_UNDEF)
+
+			c.compileNode(p.Initialiser, false)
+			c.emitSetLocalPop(pSpan.StartPos.Line, local.index)
+
+			c.patchJump(jump, pSpan)
+		}
+
+		if p.SetInstanceVariable {
+			c.emitGetLocal(location.StartPos.Line, local.index)
+			c.emitSetInstanceVariableNoPop(value.ToSymbol(pName), pSpan)
+			// pop the value after setting it
+			c.emit(pSpan.StartPos.Line, bytecode.POP)
+		}
+	}
+
+	paramCount := len(parameters)
+	if c.isGenerator {
+		c.emit(location.StartPos.Line, bytecode.GENERATOR)
+		c.emit(location.EndPos.Line, bytecode.RETURN)
+		c.registerCatch(-1, -1, c.nextInstructionOffset(), false)
+	} else if c.isAsync {
+		poolVar := c.defineLocal("_pool", location)
+		paramCount++
+		c.predefinedLocals++
+		c.bytecode.IncrementOptionalParameterCount()
+
+		c.emitGetLocal(location.StartPos.Line, poolVar.index)
+		c.emit(location.StartPos.Line, bytecode.PROMISE)
+		c.emit(location.EndPos.Line, bytecode.RETURN)
+	}
+	c.bytecode.SetParameterCount(paramCount)
+
 	c.compileWithDefer(
 		func() {
-			for _, param := range parameters {
-				p := param.(*ast.MethodParameterNode)
-				pSpan := p.Location()
-
-				pName := identifierToName(p.Name)
-				local := c.defineLocal(pName, pSpan)
-				if local == nil {
-					return
-				}
-				c.predefinedLocals++
-
-				if p.Initialiser != nil {
-					c.bytecode.IncrementOptionalParameterCount()
-
-					c.emitGetLocal(location.StartPos.Line, local.index)
-					jump := c.emitJump(pSpan.StartPos.Line, bytecode.JUMP_UNLESS_UNDEF)
-
-					c.compileNode(p.Initialiser, false)
-					c.emitSetLocalPop(pSpan.StartPos.Line, local.index)
-
-					c.patchJump(jump, pSpan)
-				}
-
-				if p.SetInstanceVariable {
-					c.emitGetLocal(location.StartPos.Line, local.index)
-					c.emitSetInstanceVariableNoPop(value.ToSymbol(pName), pSpan)
-					// pop the value after setting it
-					c.emit(pSpan.StartPos.Line, bytecode.POP)
-				}
-			}
-
-			paramCount := len(parameters)
-			if c.isGenerator {
-				c.emit(location.StartPos.Line, bytecode.GENERATOR)
-				c.emit(location.EndPos.Line, bytecode.RETURN)
-				c.registerCatch(-1, -1, c.nextInstructionOffset(), false)
-			} else if c.isAsync {
-				poolVar := c.defineLocal("_pool", location)
-				paramCount++
-				c.predefinedLocals++
-				c.bytecode.IncrementOptionalParameterCount()
-
-				c.emitGetLocal(location.StartPos.Line, poolVar.index)
-				c.emit(location.StartPos.Line, bytecode.PROMISE)
-				c.emit(location.EndPos.Line, bytecode.RETURN)
-			}
-			c.bytecode.SetParameterCount(paramCount)
-
 			c.compileStatements(body, location, false)
 		},
 		location,
